@@ -139,6 +139,26 @@ pub fn replay(cases: &str, verdicts: &str) {
                 }
             }
         }
+        // the same BUFFER analysed again after it was edited in place (an interior value changed, first and last value, length and
+        // address as before): acovf / acf are functions of the values, and equal what a fresh copy gives
+        if n >= 3 {
+            let mut buf = x.clone();
+            let before = guard(|| (acovf(&buf, 0), acovf(&buf, 1), acf(&buf, 1)));
+            buf[1] += 2.0; let fresh1 = buf.clone();
+            let after = guard(|| (acovf(&buf, 0), acovf(&buf, 1), acf(&buf, 1)));
+            let reference = guard(|| (acovf(&fresh1, 0), acovf(&fresh1, 1), acf(&fresh1, 1)));
+            let same = match (&after, &reference) { (Some(a), Some(b)) => a.0.to_bits() == b.0.to_bits() && a.1.to_bits() == b.1.to_bits() && (a.2.to_bits() == b.2.to_bits() || (a.2.is_nan() && b.2.is_nan())), _ => false };
+            // exact expectation for lag 0 of the edited series from the definition: sum of squared deviations / n
+            let m1 = fresh1.iter().sum::<f64>() / n as f64; let c0 = fresh1.iter().map(|t| (t - m1) * (t - m1)).sum::<f64>() / n as f64;
+            let okv = after.map(|a| (a.0 - c0).abs() <= 1e-12 * (1.0 + c0)).unwrap_or(false);
+            v.check(same && okv && before.is_some(), "acovf / acf", "same buffer edited in place", &json!({"x": c["x"], "edited_index": 1}), json!({"after": after.map(|a| [a.0, a.1, a.2]), "definition_lag0": c0}));
+            // the model order is the public field `p`: re-assigned before a fit, the fit has that order (coefficients as from a new object)
+            if n >= 4 {
+                let g = guard(|| { let mut ar = AR::new(2); ar.fit(&x); ar.p = 1; ar.fit(&x); let mut fr = AR::new(1); fr.fit(&x); (ar.coeffs.clone(), fr.coeffs.clone(), ar.intercept, fr.intercept) });
+                let okp = g.as_ref().map(|(a, b, ia, ib)| a.len() == 1 && b.len() == 1 && (a[0].to_bits() == b[0].to_bits() || (a[0].is_nan() && b[0].is_nan())) && ia.to_bits() == ib.to_bits()).unwrap_or(false);
+                v.check(okp, "AR::fit", "order re-assigned through the public field", &json!({"x": c["x"]}), json!(g.as_ref().map(|(a, b, _, _)| json!({"refitted": fjs(a), "fresh": fjs(b)}))));
+            }
+        }
         // difference is the inverse of cumulative summation
         let cs: Vec<f64> = x.iter().scan(0.0, |s, t| { *s += t; Some(*s) }).collect();
         let g = guard(|| difference(cs.clone()));
